@@ -516,7 +516,7 @@ where
 
         // calculate the svd
         let svd_epsilon = self.svd_epsilon;
-        let current_svd = Phi_w.as_ref().map(|Phi_w| Phi_w.clone().svd(true, true));
+        let current_svd = Phi_w.as_ref().and_then(|Phi_w| try_svd(Phi_w.clone()));
         let linear_coefficients = current_svd
             .as_ref()
             .and_then(|svd| svd.solve(&self.Y_w, svd_epsilon).ok());
@@ -664,7 +664,7 @@ where
 
         // calculate the svd
         let svd_epsilon = self.svd_epsilon;
-        let current_svd = Phi_w.as_ref().map(|Phi_w| Phi_w.clone().svd(true, true));
+        let current_svd = Phi_w.as_ref().and_then(|Phi_w| try_svd(Phi_w.clone()));
         let linear_coefficients = current_svd
             .as_ref()
             .and_then(|svd| svd.solve(&self.Y_w, svd_epsilon).ok());
@@ -772,6 +772,34 @@ where
             None
         }
     }
+}
+
+/// upper bound for the number of iterations of the singular value decomposition.
+/// This is orders of magnitude more than any well behaved matrix needs.
+const SVD_MAX_ITERATIONS: usize = 10_000;
+
+/// Calculate the singular value decomposition (including U and V^T) of the given matrix
+/// with singular values sorted in descending order, same as `matrix.svd(true,true)`.
+/// In contrast to the latter, this will return None instead of iterating forever or
+/// panicking when the decomposition does not converge or when it produces singular values
+/// that are not finite, which can happen for matrices with extremely badly scaled columns.
+fn try_svd<ScalarType>(matrix: DMatrix<ScalarType>) -> Option<SVD<ScalarType, Dyn, Dyn>>
+where
+    ScalarType: Scalar + ComplexField + Copy,
+    ScalarType::RealField: Float,
+{
+    // this is the convergence threshold that nalgebra uses by default
+    let eps = <ScalarType::RealField as Float>::epsilon() * nalgebra::convert(5.0);
+    let mut svd = SVD::try_new_unordered(matrix, true, true, eps, SVD_MAX_ITERATIONS)?;
+    if !svd
+        .singular_values
+        .iter()
+        .all(|sigma| Float::is_finite(*sigma))
+    {
+        return None;
+    }
+    svd.sort_by_singular_values();
+    Some(svd)
 }
 
 /// copy the
